@@ -26,22 +26,25 @@ type c03Params struct {
 	srvKind string // "", eof, trunc, garbage, unknownid, fatalexc, silent, nocallid
 	srvAt   int    // 1-based frame index
 	closer  bool
+	// closeStep > 0: Close() interrupts at this scheduling step (-1: never; probe run)
+	closeStep int
 }
 
 type c03Obs struct {
-	got, left []int
-	errs      []error
-	lateN     int
-	late      error
-	lateTried bool
-	failed    bool // the connection was failed (by fault, server behaviour or Close)
-	injected  bool // the harness injected a failure cause
-	ops       int
-	frames    int
-	opLog     []string
-	faulted   []string
-	dialErr   error
-	r         *rig
+	startStep, endStep int
+	got, left          []int
+	errs               []error
+	lateN              int
+	late               error
+	lateTried          bool
+	failed             bool // the connection was failed (by fault, server behaviour or Close)
+	injected           bool // the harness injected a failure cause
+	ops                int
+	frames             int
+	opLog              []string
+	faulted            []string
+	dialErr            error
+	r                  *rig
 }
 
 func c03Mixes() map[string]struct {
@@ -122,12 +125,27 @@ func c03Body(p c03Params, out *c03Obs) func() {
 				vrt.Send(fin, i)
 			})
 		}
+		out.startStep = vrt.Steps()
+		closed := false
 		if p.closer {
 			out.injected = true
-			vrt.GoNamed("h:closer", func() { r.rc.Close(); vrt.Send(fin, -1) })
+			vrt.GoNamed("h:closer", func() {
+				if p.closeStep != 0 {
+					late := false
+					tm := vrt.AfterFunc(time.Hour, func() { late = true })
+					vrt.AwaitFirst("h:close-at-step", func() bool { return late || (p.closeStep > 0 && vrt.Steps() >= p.closeStep) })
+					tm.Stop()
+				}
+				closed = true
+				r.rc.Close()
+				vrt.Send(fin, -1)
+			})
 		}
 		for i := 0; i < n; i++ {
 			vrt.Recv(fin)
+		}
+		if !closed {
+			out.endStep = vrt.Steps()
 		}
 		if p.closer {
 			vrt.Recv(fin)
@@ -242,6 +260,9 @@ func c03Units(thorough bool) []*explore.Unit {
 	add := func(p c03Params, b int) {
 		out := &c03Obs{}
 		name := fmt.Sprintf("%s|faults=%v|srv=%s@%d|closer=%v", p.mix, p.cfg.Faults, p.srvKind, p.srvAt, p.closer)
+		if p.closeStep != 0 {
+			name += fmt.Sprintf("|close at step %d", p.closeStep)
+		}
 		units = append(units, &explore.Unit{Name: name, Bound: b, Opt: vrt.Options{MaxSteps: 20000},
 			Body: c03Body(p, out), Check: c03Check(p, out), Sig: c03Sig(out),
 			Describe: func() any { return map[string]any{"oplog": out.opLog, "faulted": out.faulted, "frames": out.frames} }})
@@ -285,6 +306,34 @@ func c03Units(thorough bool) []*explore.Unit {
 					p.closer = true
 					add(p, bound+1)
 				}
+			}
+		}
+		// Close() at every scheduling step of a thread running client code, with a healthy
+		// server and with one that never answers (the position of Close is a parameter of
+		// the unit: vrt.AwaitFirst)
+		for _, silent := range []bool{false, true} {
+			pp := base
+			pp.closer, pp.closeStep = true, -1
+			if silent {
+				pp.srvKind, pp.srvAt = "silent", 1
+			}
+			po := &c03Obs{}
+			vrt.Tracing = true
+			res, _ := explore.RunOnce(&explore.Unit{Opt: vrt.Options{MaxSteps: 20000}, Body: c03Body(pp, po)}, nil)
+			vrt.Tracing = false
+			nk := 0
+			for i, line := range res.Trace {
+				k := res.TraceSteps[i]
+				if k <= po.startStep || harnessThread(strings.SplitN(line, " ", 2)[0]) && !strings.Contains(line, ":h:caller") {
+					continue
+				}
+				if po.endStep > 0 && k > po.endStep || nk >= 200 {
+					break
+				}
+				nk++
+				ps := pp
+				ps.closeStep = k
+				add(ps, bound)
 			}
 		}
 		if thorough {
@@ -379,9 +428,9 @@ func c03Race() []RaceBody {
 func init() {
 	register(&Prop{
 		Race: c03Race,
-		ID: "C03", Level: "fault_enumeration",
-		Technique: "stateless model checking of the real region client: every connection-operation fault position and server misbehaviour crossed with all schedules up to a deviation bound, under a controlled scheduler with virtual time",
-		Rule: "units = call mix (batched/unbatched/cellblock/cancelled) x {no fault, k-th connection op fails for every k incl. partial writes, server EOF / truncated frame / undecodable header / unknown call id / missing call id / server-fatal exception / silence at every frame} x {external Close() thread or not}; for each unit every schedule with <=1 (thorough <=2) deviations from the default run-to-block schedule. Oracle per call: exactly one completion on its result channel, class ServerError unless genuinely answered; later calls refused at once; no client thread left blocked. Non-trivial = at least one non-default scheduling choice.",
+		ID:   "C03", Level: "fault_enumeration",
+		Technique:   "stateless model checking of the real region client: every connection-operation fault position and server misbehaviour crossed with all schedules up to a deviation bound, under a controlled scheduler with virtual time",
+		Rule:        "units = call mix (batched/unbatched/cellblock/cancelled) x {no fault, k-th connection op fails for every k incl. partial writes, server EOF / truncated frame / undecodable header / unknown call id / missing call id / server-fatal exception / silence at every frame} x {external Close() thread or not}; for each unit every schedule with <=1 (thorough <=2) deviations from the default run-to-block schedule. Oracle per call: exactly one completion on its result channel, class ServerError unless genuinely answered; later calls refused at once; no client thread left blocked. Non-trivial = at least one non-default scheduling choice.",
 		Assumptions: []string{"scheduling points: channel ops, locks, atomics, Once, every net.Conn method; code between them is atomic (Go memory model, race freedom checked separately)", "virtual time: timers fire at quiescence (or earlier as a counted deviation)"},
 		Quick:       100 * time.Second, Thorough: 20 * time.Minute,
 		Units: c03Units,
